@@ -82,7 +82,8 @@ impl<'a> Gen<'a> {
         let n = self.nonce();
         let s = serde_json::to_value(script).unwrap();
         if r.payload_raw {
-            let b = serde_json::to_vec(&json!({"nonce": n, "script": s})).unwrap();
+            // raw payloads are any bytes, the empty string included
+            let b = if self.rng.chance(1, 8) { vec![] } else { serde_json::to_vec(&json!({"nonce": n, "script": s})).unwrap() };
             (Binary::from(b.clone()), Binary::from(b))
         } else if r.payload.len() == 1 && r.payload[0].ty == "Binary" {
             // a lone typed Binary travels as a JSON string (base64)
@@ -179,7 +180,15 @@ impl<'a> Gen<'a> {
             }
             let rs = self.small_script(from, depth);
             let (given, _) = self.payload(sig, &rs);
-            ReplyReq::Handler { name: name.to_string(), payload: given, recv: self.rng.below(12) as u8 }
+            let recv = self.rng.below(12) as u8;
+            // an existing sub-message may already have been stamped by the same builder
+            let pre = if recv % 3 == 0 && self.rng.chance(1, 3) {
+                let other = self.small_script(from, 3);
+                Some(self.payload(sig, &other).0)
+            } else {
+                None
+            };
+            ReplyReq::Handler { name: name.to_string(), payload: given, recv, pre }
         } else {
             // hand-made sub-message: any id (also unknown ones), any trigger
             let known = self.rng.chance(3, 4);
